@@ -9,7 +9,8 @@ import time
 import z3
 
 from . import source, values as V
-from .values import (Opt, Ptr, Opaque, Ref, StrV, BytesV, FuncV, ModV, HList, HDict, HRec, HSet, is_sym, is_int_like,
+from .values import (Opt, Ptr, Opaque, Ref, StrV, BytesV, FuncV, ModV, HList, HDict, HRec, HSet, HRecList, ElemRef,
+                     is_sym, is_int_like,
                      is_bool_like, to_z3, parse_type)
 from . import contracts as C
 
@@ -235,6 +236,8 @@ class Engine:
       st.frames.pop()
 
   def module_attr(self, st, mod, attr):
+    if mod.name == "paranoid_crypto.version" and attr == "__version__":
+      return self.th.read_version(self)
     rel = source.module_relpath(mod.name)
     if rel is not None:
       m = source.load(rel, self.repo)
@@ -275,8 +278,10 @@ class Engine:
         if o.items is not None:
           return len(o.items) > 0
         raise Unsupported("truthiness of symbolic set")
+      if isinstance(o, HRecList):
+        return to_z3(o.length) > 0
       return True
-    if isinstance(v, Ref):
+    if isinstance(v, (Ref, ElemRef)):
       return True
     if isinstance(v, BytesV):
       return to_z3(v.length) > 0
@@ -380,6 +385,8 @@ class Engine:
       return self.and_(to_z3(a.length) == to_z3(b.length), to_z3(a.val) == to_z3(b.val))
     if isinstance(a, Ref) and isinstance(b, Ref):
       return a.term == b.term
+    if isinstance(a, ElemRef) and isinstance(b, ElemRef):
+      return self.and_(a.ptr.addr == b.ptr.addr, to_z3(a.idx) == to_z3(b.idx))
     if isinstance(a, Ptr) and isinstance(b, Ptr):
       oa, ob = st.deref(a), st.deref(b)
       if isinstance(oa, HList) and isinstance(ob, HList):
@@ -536,6 +543,8 @@ class Engine:
         a = self.need_int(st, a)
       if isinstance(b, Opt) and not isinstance(a, Opt):
         b = self.need_int(st, b)
+      if isinstance(a, (str, StrV)) and isinstance(b, (str, StrV)):
+        return StrV(z3.If(c, self.th.str_term(self, st, a), self.th.str_term(self, st, b)))
       return self.ite(c, a, b)
     return self.ev(node.body if self.choose(st, c) else node.orelse, st)
 
@@ -742,6 +751,11 @@ class Engine:
     if isinstance(base, Opt):
       self.implicit(st, "AttributeError", self.not_(base.isnone), node, f"None.{attr}")
       return self.getattr(st, base.val, attr, node)
+    if isinstance(base, ElemRef):
+      o = st.deref(base.ptr)
+      if attr not in o.fields:
+        raise Unsupported(f"field {attr} of {o.cls}")
+      return V.select_rep(o.fields[attr], o.reps[attr], to_z3(base.idx))
     if isinstance(base, Ref):
       return self.th.ref_attr(self, st, base, attr, node)
     if isinstance(base, FuncV) and base.kind == "class":
@@ -834,6 +848,9 @@ class Engine:
         return self.th.dict_get(self, st, o, idx, node)
       if isinstance(o, HRec):
         return self.th.rec_index(self, st, base, o, idx, node)
+      if isinstance(o, HRecList):
+        i = self.th._norm_index(self, st, o.length, idx, node)
+        return ElemRef(base, i)
     if isinstance(base, BytesV):
       return self.th.bytes_index(self, st, base, idx, node)
     if isinstance(base, Ref):
@@ -980,7 +997,7 @@ class Engine:
     for name in c.modifies:
       self.havoc_value(st, self.ev(ast.parse(name, mode="eval").body, self._with_frame(st, fr)), name)
       st.frames.pop()
-    result = self.fresh_heap(st, c.returns, f"{c.qual.split('.')[-1]}.ret")
+    result = self.fresh_result(st, c, env, f)
     env2 = dict(env)
     env2["result"] = result
     fr2 = Frame(env2, None, f.module, fname=c.qual)
@@ -999,6 +1016,26 @@ class Engine:
       st.frames.pop()
     return result
 
+  def fresh_result(self, st, c, env, f):
+    t = parse_type(c.returns)
+    name = f"{c.qual.split('.')[-1]}.ret"
+    elem = None
+    if isinstance(t, tuple) and t[0] == "elem":
+      elem, opt = t[1], False
+    elif isinstance(t, tuple) and t[0] == "opt" and isinstance(t[1], tuple) and t[1][0] == "elem":
+      elem, opt = t[1][1], True
+    if elem is None:
+      return self.fresh_heap(st, c.returns, name)
+    fr = Frame(dict(env), None, f.module, fname=c.qual)
+    st.frames.append(fr)
+    try:
+      ptr = self.ev(ast.parse(elem, mode="eval").body, st)
+    finally:
+      st.frames.pop()
+    idx = z3.Int(V.fresh_name(name + ".idx"))
+    e = ElemRef(ptr, idx)
+    return Opt(z3.Bool(V.fresh_name(name + ".isnone")), e) if opt else e
+
   def _with_frame(self, st, fr):
     st.frames.append(fr)
     return st
@@ -1006,9 +1043,26 @@ class Engine:
   def snapshot(self, st, env):
     """Copies the heap objects reachable from env (for old())."""
     snap = {}
+
+    def visit(v):
+      if isinstance(v, Ptr) and v.addr in st.heap and v.addr not in snap:
+        o = st.heap[v.addr]
+        snap[v.addr] = o.clone()
+        if isinstance(o, HRec):
+          for x in o.fields.values():
+            visit(x)
+        elif isinstance(o, HList) and not o.symbolic:
+          for x in o.items:
+            visit(x)
+      elif isinstance(v, (tuple, list)):
+        for x in v:
+          visit(x)
+      elif isinstance(v, Opt):
+        visit(v.val)
+      elif isinstance(v, ElemRef):
+        visit(v.ptr)
     for v in env.values():
-      if isinstance(v, Ptr) and v.addr in st.heap:
-        snap[v.addr] = st.heap[v.addr].clone()
+      visit(v)
     return snap
 
   def inline(self, st, f, args, kwargs, node):
@@ -1044,6 +1098,8 @@ class Engine:
       return tuple(self.fresh_heap(st, ti, f"{name}.{i}") for i, ti in enumerate(t[1]))
     if isinstance(t, tuple) and t[0] == "rec":
       return self.th.fresh_rec(self, st, t, name)
+    if isinstance(t, tuple) and t[0] == "opt" and isinstance(t[1], tuple) and t[1][0] == "rec":
+      return Opt(z3.Bool(V.fresh_name(name + ".isnone")), self.th.fresh_rec(self, st, t[1], name))
     v = V.fresh(t, name)
     st.assume(*V.type_constraints(t, v))
     return v
@@ -1061,8 +1117,12 @@ class Engine:
 
   def coerce_heap(self, st, t, v):
     t = parse_type(t)
-    if isinstance(t, tuple) and t[0] in ("list", "dict", "rec", "ref"):
+    if isinstance(t, tuple) and t[0] in ("list", "dict", "rec", "ref", "elem"):
       return v
+    if isinstance(t, tuple) and t[0] == "opt" and isinstance(t[1], tuple) and t[1][0] in ("elem", "rec", "list"):
+      if v is None:
+        return Opt(True, None)
+      return v if isinstance(v, Opt) else Opt(False, v)
     if t in ("opaque",):
       return v
     try:
@@ -1106,6 +1166,13 @@ class Engine:
         return v
       if isinstance(o, HSet):
         self.th.havoc_set(self, st, o, name)
+        return v
+      if isinstance(o, HRecList):
+        for k, ft in o.fields.items():
+          o.reps[k] = V.fresh_rep(ft, f"{name}.{k}")
+        if not keep_len:
+          o.length = z3.Int(V.fresh_name(name + ".len"))
+          st.assume(o.length >= 0)
         return v
       raise Unsupported("havoc of heap object")
     if isinstance(v, Opaque):
@@ -1304,6 +1371,15 @@ class Engine:
         return
     if isinstance(base, Ref):
       return self.th.ref_setattr(self, st, base, attr, v, node)
+    if isinstance(base, ElemRef):
+      o = st.deref(base.ptr)
+      if attr not in o.fields:
+        raise Unsupported(f"field {attr} of {o.cls}")
+      o.reps[attr] = V.store_rep(o.fields[attr], o.reps[attr], to_z3(base.idx), self.th.lift(self, st, o.fields[attr], v))
+      return
+    if isinstance(base, Opt):
+      self.implicit(st, "AttributeError", self.not_(base.isnone), node, f"None.{attr} = ...")
+      return self.setattr(st, base.val, attr, v, node)
     raise Unsupported(f"attribute assignment on {type(base).__name__}")
 
   def setitem(self, st, base, idx, v, node):
